@@ -290,7 +290,18 @@ pub fn run_simcli(bytes: &[u8], route: &Route, opts: &Opts, env: &SimEnv, extra_
     cmd.stdin(if route.stdin { Stdio::piped() } else { Stdio::null() });
     cmd.stdout(Stdio::piped());
     cmd.stderr(Stdio::piped());
-    let mut child = cmd.spawn().expect("cannot start simcli (was the workspace built?)");
+    // (a machine that is out of processes or memory for a moment is not a finding: try again)
+    let mut tries = 0;
+    let mut child = loop {
+        match cmd.spawn() {
+            Ok(c) => break c,
+            Err(e) if tries < 200 && matches!(e.raw_os_error(), Some(11) | Some(12)) => {
+                tries += 1;
+                std::thread::sleep(std::time::Duration::from_millis(50));
+            }
+            Err(e) => panic!("cannot start simcli (was the workspace built?): {e}"),
+        }
+    };
     if route.stdin {
         let mut si = child.stdin.take().unwrap();
         let data = bytes.to_vec();
